@@ -608,12 +608,41 @@ impl Scenario for Sched {
                 label = format!("{label}overlap,");
             }
         }
+        // 1 in 4: a filter (link / FEE ID / stave of the stream); half of these with a stream whose FIRST packet
+        // comes from another (known) system and is skipped by the filter: what the reader reports about the
+        // start of the data (system ID, from the main thread's forwarder) and what the analysis reports about the
+        // selected packets (layers and staves, errors) reach the collector from two threads in either order
+        let mut filter = Filter::None;
+        if case % 4 == 1 && st.links.len() >= 2 {
+            let first_link = st.order[0].0;
+            let others: Vec<usize> = (0..st.links.len()).filter(|&l| l != first_link && !st.links[l].packets.is_empty()).collect();
+            if !others.is_empty() {
+                let l = others[rng.usize_below(others.len())];
+                let fee = st.links[l].packets[0].rdh.fee_id;
+                filter = match rng.below(3) {
+                    0 => Filter::Link(st.links[l].link_id),
+                    1 => Filter::Fee(fee),
+                    _ => Filter::Stave(fee & 0b0111_0000_0011_1111),
+                };
+                if stave {
+                    // (stave checks want the stave filter)
+                    filter = Filter::Stave(fee & 0b0111_0000_0011_1111);
+                }
+                let first_selected = filter.matches(&st.links[first_link].packets[st.order[0].1].rdh);
+                if rng.chance(1, 2) && !first_selected {
+                    st.packet_mut(0).rdh.system_id = *rng.pick(&[3u8, 4, 5, 6, 7, 8, 10, 15, 17]);
+                    label = format!("{label}first-packet-of-another-system,");
+                }
+                label = format!("{label}filter,");
+            }
+        }
         let mut input = st.bytes();
         if case % 10 == 9 {
             // the repository's sample files (12 links x 2 HBFs of detector data among them)
             if let Some((_, b)) = crate::corpus::pick(&mut rng, 300_000, false) {
                 input = b;
                 label = "sample files".to_string();
+                filter = Filter::None;
             }
         }
         let mut parts: Vec<String> = if view {
@@ -628,19 +657,20 @@ impl Scenario for Sched {
             label = format!("{} | {label}", CHECK_MODES[mode_i].join(" "));
             s(CHECK_MODES[mode_i])
         };
+        parts.extend(filter.args());
         if rng.chance(1, 3) {
             parts.push("-m".into());
             label.push_str(" -m");
         }
         let mut stats_ext = "json".to_string();
-        if rng.chance(2, 3) {
+        if rng.chance(2, 3) || filter != Filter::None {
             stats_ext = if rng.chance(1, 2) { "json".into() } else { "toml".into() };
             parts.extend(s(&["-S", "@STATS@", "-D", &stats_ext]));
         }
         if rng.chance(1, 3) {
             parts.extend(s(&["-E", &rng.range(1, 255).to_string()]));
         }
-        if rng.chance(1, 6) {
+        if filter == Filter::None && rng.chance(1, 6) {
             // an output destination next to the check / view (with the filter it requires): accepted with
             // a warning and ignored - in particular no second consumer of the reader's batches
             let w = walk(&input);
